@@ -75,9 +75,9 @@ fn gen_fanout_bench(rng: &mut Rng) -> Case {
     let leaves = rng.range(260, 330) as usize;
     c.nodes.clear();
     let port: Vec<Edge> = (0..leaves).map(|i| Edge { cid: 60_000 + i as u32, target: Target::Node((i + 1) as u16), map: i % 7 == 0, filter: None }).collect();
-    c.nodes.push(NodeSpec { name: "hub".into(), parent: None, cap: 16, registered: true, dead: false, outs: vec![port], reqs: vec![], init: vec![], on: vec![vec![Op::Send { port: 0, kind: 0 }]], panic_at: None });
+    c.nodes.push(NodeSpec { name: "hub".into(), parent: None, cap: 16, registered: true, dead: false, outs: vec![port], reqs: vec![], init: vec![], on: vec![vec![Op::Send { port: 0, kind: 0 }]], panic_at: None, late_mailbox: false });
     for i in 0..leaves {
-        c.nodes.push(NodeSpec { name: format!("leaf{}", i), parent: None, cap: *rng.pick(&[1u8, 2, 16]), registered: true, dead: false, outs: vec![], reqs: vec![], init: vec![], on: vec![vec![]], panic_at: None });
+        c.nodes.push(NodeSpec { name: format!("leaf{}", i), parent: None, cap: *rng.pick(&[1u8, 2, 16]), registered: true, dead: false, outs: vec![], reqs: vec![], init: vec![], on: vec![vec![]], panic_at: None, late_mailbox: false });
     }
     c.cfg.threads = rng.range(2, 4) as u8;
     c.script = vec![Cmd::ProcessEvent { target: 0, kind: 0 }];
@@ -232,7 +232,7 @@ fn gen_c06(rng: &mut Rng, thorough: bool) -> Case {
     // sent, so no loss may be reported.
     if rng.pct(20) {
         let kinds = c.nodes[0].on.len();
-        c.nodes.push(NodeSpec { name: format!("gone{}", c.nodes.len()), parent: None, cap: 1, registered: true, dead: true, outs: vec![], reqs: vec![], init: vec![], on: vec![vec![]; kinds], panic_at: None });
+        c.nodes.push(NodeSpec { name: format!("gone{}", c.nodes.len()), parent: None, cap: 1, registered: true, dead: true, outs: vec![], reqs: vec![], init: vec![], on: vec![vec![]; kinds], panic_at: None, late_mailbox: false });
         let t = (c.nodes.len() - 1) as u16;
         let pos = rng.usize(c.script.len() + 1);
         c.script.insert(pos, Cmd::ProcessEvent { target: t, kind: 0 });
@@ -263,7 +263,7 @@ fn gen_big_bench(rng: &mut Rng) -> Case {
         // a few init-time pings to the next model (kept and processed after its own init)
         let outs = if i + 1 < n && rng.pct(25) { vec![vec![Edge { cid: 50_000 + i as u32, target: Target::Node((i + 1) as u16), map: rng.pct(50), filter: None }]] } else { vec![] };
         let init = if !outs.is_empty() && rng.pct(60) { vec![Op::Send { port: 0, kind: 0 }] } else { vec![] };
-        c.nodes.push(NodeSpec { name: format!("m{}", i), parent, cap: 16, registered: true, dead: false, outs, reqs: vec![], init, on: vec![vec![]], panic_at: None });
+        c.nodes.push(NodeSpec { name: format!("m{}", i), parent, cap: 16, registered: true, dead: false, outs, reqs: vec![], init, on: vec![vec![]], panic_at: None, late_mailbox: false });
     }
     c.cfg.threads = rng.range(2, 4) as u8;
     c.script = vec![Cmd::ProcessEvent { target: rng.usize(n) as u16, kind: 0 }, Cmd::ProcessEvent { target: (n - 1) as u16, kind: 0 }];
@@ -299,6 +299,43 @@ fn gen_c16(rng: &mut Rng, thorough: bool) -> Case {
         }
     }
     c.script = gen::gen_flow_script(rng, &c, &o, 2);
+    // A sub-model whose mailbox is created inside its parent's `build()` (no address exists before
+    // `add_submodel`) and that only hears from its own child, through the address it hands out
+    // from its own `build()`; the child's init already sends to it.
+    if n >= 3 && rng.pct(20) {
+        let x = rng.range(1, n as u64 - 2) as usize;
+        let y = rng.range(x as u64 + 1, n as u64 - 1) as usize;
+        if c.nodes[x].parent.is_none() {
+            c.nodes[x].parent = Some(rng.below(x as u64) as u16);
+        }
+        c.nodes[y].parent = Some(x as u16);
+        // nobody else talks to x
+        let xt = Target::Node(x as u16);
+        for nd in c.nodes.iter_mut() {
+            for port in nd.outs.iter_mut().chain(nd.reqs.iter_mut()) {
+                port.retain(|e| e.target != xt);
+            }
+        }
+        for sp in c.sources.iter_mut() {
+            sp.edges.retain(|e| e.target != xt);
+        }
+        for cmd in c.script.iter_mut() {
+            match cmd {
+                Cmd::ProcessEvent { target, .. } | Cmd::ProcessQuery { target, .. } if *target as usize == x => *target = 0,
+                _ => {}
+            }
+        }
+        let kinds = c.nodes[y].on.len().max(1);
+        c.nodes[y].outs.push(vec![Edge { cid: 70_000 + y as u32, target: xt, map: rng.pct(50), filter: None }]);
+        let port = (c.nodes[y].outs.len() - 1) as u8;
+        c.nodes[y].init.push(Op::Send { port, kind: rng.below(kinds as u64) as u8 });
+        let k = rng.usize(kinds);
+        c.nodes[y].on[k].push(Op::Send { port, kind: rng.below(kinds as u64) as u8 });
+        // x only collects (no cycle through the new back edge)
+        c.nodes[x].outs.clear();
+        c.nodes[x].reqs.clear();
+        c.nodes[x].late_mailbox = true;
+    }
     // Names in error reports: a model of the hierarchy (preferably one that has a parent or
     // children) panics in init or in a handler, or its mailbox is dropped so that its peers'
     // sends fail.
